@@ -70,6 +70,11 @@ def prefixes(tier, seed):
                     continue
                 for pm in ["none"] + c["centring"] + (["auto"] if var == "as-is" and tier != "quick" else []):
                     yield {"xtal": name, "variant": var, "S": S, "pm": pm}
+    # hexagonal cells typed with limited precision in supercells with three-fold boundary ties (images equidistant only to ~1e-7)
+    for name in ("hcp-2", "hex-1", "wurtzite-4"):
+        for S in ([[3, 0, 0], [0, 3, 0], [0, 0, 1]], [[3, 0, 0], [0, 3, 0], [0, 0, 2]]):
+            if abs(SM.det3(S)) * len(cr[name]["symbols"]) <= maxat:
+                yield {"xtal": name, "variant": "typed7", "S": S, "pm": "none"}
 
 
 def plan(tier, seed):
